@@ -36,7 +36,8 @@ impl Scenario for C03 {
         g.returns_protocol = true;
         g.drain_all = cs.choose("drain_all", 4) != 0;
         g.body_factor = 3;
-        g.frame_max_choices = vec![(0, 4096), (4096, 131072), (0, 8192), (8192, 4096)];
+        // (0, 131072): body frames of up to 131064 bytes in the sessions with very large bodies
+        g.frame_max_choices = vec![(0, 4096), (4096, 131072), (0, 8192), (8192, 4096), (0, 131072)];
         let mut gen = gen_session(&mut cs, &g);
         // one session in eight carries very large bodies (around 64 KiB, 1 MiB and 2 MiB)
         let big = cs.choose("big_bodies", 8) == 0;
@@ -72,6 +73,7 @@ impl Scenario for C03 {
         rep.nontrivial = multi && (world.broker.stats.mux_interleaves > 0 || n.stats.would_block_reads > 3);
         rep.count("probe.multi_frame_content", multi as u64);
         rep.count("probe.big_body_sessions", big as u64);
+        rep.count("probe.big_body_sessions_with_frames_up_to_128k", (big && gen.frame_max > 100_000) as u64);
         rep.distinct = rep.trace_hash;
         rep
     }
